@@ -619,6 +619,11 @@ def jobs_for(pid, tier):
             ex = [e for e in extra if e != "miri" or (not q and "n3" not in j["tag"] and j.get("consts", {}).get("Cap", 0) <= 2)]
             out.append(dict(j, profiles=["debug", "release"] + ex) if ex else j)
         return out
+    # every transition of these graphs again with a panic injected into each callback the code makes
+    inj_sweeps = [dict(j, sweep="inject") for j in
+                  both("core", ["core"]) + both("cef", ["cursor", "entry", "fmt", "unchecked"], consts={"Vers": [0]})
+                  + both("bulkclone", ["bulk", "clone"], bigconsts={"MaxExtra": 1, "Vers": [0]})
+                  + setcore + both("setbc", ["bulk", "clone"], mode="set", consts={"MaxExtra": 1}, bigconsts={"Vers": [0]})]
     table = {
         "C01": shaped(core) + tmap + tbig + deep("core", ["core"]),
         "C07": shaped(setcore + both("setbulk", ["bulk"], mode="set", consts={"MaxExtra": 1}, bigconsts={"Vers": [0]})) + tset + deep("setcore", ["core"], mode="set"),
@@ -649,10 +654,7 @@ def jobs_for(pid, tier):
                + shaped(setcore + both("setclone", ["clone"], mode="set"))
                + shaped(both("bulk", ["bulk"], bigconsts={"MaxExtra": 1})) + shaped(both("setbulk", ["bulk"], mode="set", consts={"MaxExtra": 1}, bigconsts={"Vers": [0]}))
                + pairs("alg", ["algebra", "eq"], "set", qcaps[:2] if q else tcaps[:8]) + pairs("eqmap", ["eq"], "map", qcaps[:1] if q else tcaps[:4]),
-        "C04": tinj + micro_inject + ([] if q else micro_bin) + [dict(j, sweep="inject") for j in
-                both("core", ["core"]) + both("cef", ["cursor", "entry", "fmt", "unchecked"], consts={"Vers": [0]})
-                + both("bulkclone", ["bulk", "clone"], bigconsts={"MaxExtra": 1, "Vers": [0]})
-                + setcore + both("setbc", ["bulk", "clone"], mode="set", consts={"MaxExtra": 1}, bigconsts={"Vers": [0]})]
+        "C04": tinj + micro_inject + ([] if q else micro_bin) + inj_sweeps
                + [dict(j, sweep="inject") for j in pairs("algsweep", ["algebra", "eq"], "set", qcaps[:2] if q else tcaps[:6])],
         "C17": prof(micro_adv, "asan", "miri") + prof([dict(j, sweep="adversarial", max_leaves=(256 if q else 4096)) for j in
                 both("core", ["core"], consts={"Vers": [0]}) + both("ed", ["entry", "disjoint"], consts={"Vers": [0], "Vals": [0]}, bigconsts={"MaxKs": 3})
@@ -665,7 +667,10 @@ def jobs_for(pid, tier):
                + both("serde", ["serde"]) + both("setserde", ["serde"], mode="set") + deep("core", ["core"]) + deep("setcore", ["core"], mode="set"),
         "C02": shaped(core) + prof(shaped(both("cursor", ["cursor"])), "miri") + both("eubc", ["entry", "unchecked", "bulk", "clone"], consts={"Vers": [0]}, bigconsts={"MaxExtra": 1})
                + setcore + both("setbc", ["bulk", "clone"], mode="set", consts={"MaxExtra": 1}, bigconsts={"Vers": [0]}) + tmap + tset
-               + both("serde", ["serde"]) + both("setserde", ["serde"], mode="set"),
+               + both("serde", ["serde"]) + both("setserde", ["serde"], mode="set")
+               # "destroyed exactly once overall", "no operation ... destroys a slot that does not hold a live element": also on
+               # the way out of a panicking callback (what the ledger reports there counts for C02 as well as for C04)
+               + inj_sweeps,
         "C03": prof(shaped(core) + both("entry", ["entry"]) + shaped(both("bulk", ["bulk"], bigconsts={"MaxExtra": 1})) + shaped(setcore)
                     + shaped(both("setbulk", ["bulk"], mode="set", consts={"MaxExtra": 1}, bigconsts={"Vers": [0]})), "asan", "miri"),
     }
